@@ -34,6 +34,16 @@ package table
 //@   ensures [partition] w.generator != nil ==> len(w.offsets) == max(len(old(w.offsets)), int(offset / uint64(1 << w.baseLg)))
 //@   ensures [prefix] forall i int :: 0 <= i && i < len(old(w.offsets)) ==> w.offsets[i] == old(w.offsets)[i]
 
+// The filter block ends with the partition width the writer used: the reader takes it from there (C13: a table is
+// read back as written whatever FilterBaseLg was configured; C16: no false negatives).
+//@ func (*filterWriter).finish
+//@   props C16 C13
+//@   mode bv
+//@   requires fwwf(w)
+//@   loop 1
+//@     invariant fwwf(w) && w.baseLg == old(w.baseLg)
+//@   ensures [trailer-carries-the-partition-width-the-writer-used] (old(w.generator) != nil && result == nil) ==> w.buf.buf[len(w.buf.buf) - 1] == uint8(old(w.baseLg))
+
 // ---------------------------------------------------------------------------
 // filter block reader
 
